@@ -562,9 +562,19 @@ class Program:
         con = self.console
         if k == "print":
             r = build(op[1])
-            pkw = {"overflow": "ignore", "no_wrap": True} if op[1].get("ignore") else {}
+            # (print options: only with Live, where the frame renderable is at hand for the
+            # predicate of known finding C10-F18 below)
+            pkw = {"overflow": "ignore", "no_wrap": True} if op[1].get("ignore") and self.kind == "live" else {}
             if pkw:
                 self.probes["prints_cropped_by_print"] = self.probes.get("prints_cropped_by_print", 0) + 1
+                if self.started and con._render_hooks:
+                    # known finding C10-F18: the options of this print also apply to the frame the
+                    # hook appends to it; it matters when the frame renders differently under them
+                    for d in self.cur_desc:
+                        if self.pristine.rows(lambda c: c.print(build(d))) != self.pristine.rows(lambda c: c.print(build(d), **pkw)):
+                            self.probes["defect_print_options_reach_frame"] = self.probes.get("defect_print_options_reach_frame", 0) + 1
+                            o.tags.add("print-options-reach-frame")
+                            break
             rows = self._print_rows(lambda c: c.print(build(op[1]), **pkw))
             o.tokens.append(op[1]["lines"][0].split(" ")[0])
             if self.started:
@@ -745,7 +755,7 @@ class Program:
         # whatever went wrong, printed lines are never taken back: every row that had been printed
         # (and verified on screen) before the fault is still there, in order ("no printed line
         # overwritten" is not conditional on the absence of exceptions)
-        if fired and not o.relaxed and o.viol is None and "progress-frame-exceeds-screen" not in o.tags and "print-without-newline-while-live" not in o.tags:
+        if fired and not o.relaxed and o.viol is None and "progress-frame-exceeds-screen" not in o.tags and "print-without-newline-while-live" not in o.tags and "print-options-reach-frame" not in o.tags:
             have = [r for r in o.scr.all_cells() if r]
             pos = 0
             for row in o.committed:
@@ -812,7 +822,7 @@ C10.components_stub = ["threading primitives -> dsim", "OS scheduler -> seeded b
 C10.assumptions = ["the terminal behaves like the VT-subset model (LF implies CR, deferred wrap, cursor-up clamps at the window top)",
                    "blank rows are ignored when screens are compared (Progress pads frames to the tallest height seen)",
                    "expected rows come from pristine renders by rich itself: layout is trusted, cursor control / ordering is not",
-                   "known findings: C10-F17 (a print without trailing newline was issued while the display was live, earlier in the history), C10-F3 (transient and last frame >= screen height), C10-F4 (Progress and a frame or its padded height > screen height), C10-F6 (failing write in a critical span that overlaps the refresh thread AND one side is a print/log); each suppresses only violations for which its predicate holds",
+                   "known findings: C10-F17 (a print without trailing newline was issued while the display was live, earlier in the history), C10-F18 (a print with overflow/no_wrap options was issued while live and the current frame renders differently under those options), C10-F3 (transient and last frame >= screen height), C10-F4 (Progress and a frame or its padded height > screen height), C10-F6 (failing write in a critical span that overlaps the refresh thread AND one side is a print/log); each suppresses only violations for which its predicate holds",
                    "Status: the spinner glyph is time dependent and compared as a wildcard cell",
                    "resize, Jupyter, legacy Windows and dumb terminals are not simulated"]
 CHECK = C10()
